@@ -57,6 +57,8 @@ def cpath(p):
 
 def cdesc(d):
     k = d[0]
+    if k == 'maxnamed':          # accepts / rejects like `max`; the name its ValidatorException carries is no part of the model's
+        return f'(DMax {coq_Z(d[1])})'   # validator outcome: model and specification name the Parameter whose chain rejected
     return {'ident': 'DIdent', 'tonone': 'DToNone', 'tostr': 'DToStr', 'rejectall': 'DRejectAll', 'nonetozero': 'DNoneToZero',
             'rejectoddsub': 'DRejectOddSub'}.get(k) or \
         (f'(DMax {coq_Z(d[1])})' if k == 'max' else f'(DAdd {coq_Z(d[1])})' if k == 'add' else
@@ -512,8 +514,10 @@ def gen_desc(rng, benign=False):
         return ['max', rng.choice([0, 2, 5, 9])]
     if r < 0.4:
         return ['add', rng.choice([-2, 1, 3])]
-    if r < 0.55:
+    if r < 0.52:
         return ['ident']
+    if r < 0.55:                                 # a rejection that already carries the name of some (other) field
+        return ['maxnamed', rng.choice([0, 2, 5, 9]), rng.choice([1, 2, 3, 4, 5, 6, 7, 12, 17]), rng.randrange(2)]
     if r < 0.62:
         return ['tostr']
     if r < 0.70:
@@ -726,18 +730,27 @@ def malform(rng, c):
     return c
 
 
-def gen_matrix(rng, maxchain, n, cap_styles, modes=(0, 1, 2), flask=False):
-    """one configuration x one named assignment x every call style x every mode"""
-    method = rng.random() < 0.3
+def gen_matrix(rng, maxchain, n, cap_styles, modes=(0, 1, 2), flask=False, ignore_input=False):
+    """one configuration x one named assignment x every call style x every mode.
+    ignore_input: the ignore_input=True dimension - every parameter kind of the library (plain, FlaskPathParameter - a plain
+    Parameter subclass -, external ones with / without value), most Parameters optional with a default so that the body is
+    reached, the caller passing (to no avail) values in every call style"""
+    method = rng.random() < 0.3 and not ignore_input       # ignore_input drops the bound self as well: Python's TypeError, nothing to see
     sig = gen_sig(rng, n, method, kwonly_p=0.2, varkw_p=0.05)
     strict = rng.random() < 0.5
     rq = None
     kinds = None
     if flask:
         rq = gen_request(rng, sig)
-        kinds = ('plain', 'fjson', 'fjson', 'fform', 'fget', 'fheader', 'hext', 'env')
-    benign = rng.random() < 0.6
-    params = gen_decl(rng, sig, strict, maxchain, kinds, benign=benign)
+        kinds = ('plain', 'fjson', 'fjson', 'fform', 'fget', 'fheader', 'hext', 'env', 'fpath')
+    elif ignore_input:
+        kinds = ('plain', 'plain', 'fpath', 'fpath', 'fpath', 'hext', 'env')
+    benign = rng.random() < 0.6 or ignore_input
+    params = gen_decl(rng, sig, strict or ignore_input, maxchain, kinds, benign=benign)
+    if ignore_input:
+        for p in params:
+            if rng.random() < 0.8 and p['default'] is None and not has_source(p, rq):
+                p['required'], p['default'] = False, [1, rng.choice(INT_POOL), 0]
     finish_request(rng, rq, params, strict)
     asg = gen_assignment(rng, sig, params, rq)
     if benign:                                   # mostly acceptable values: small ints / their numerals, rarely None
@@ -748,7 +761,7 @@ def gen_matrix(rng, maxchain, n, cap_styles, modes=(0, 1, 2), flask=False):
             if rng.random() < 0.85:
                 asg[n] = rng.choice([[1, rng.choice([0, 2, 3, 8]), 0], [1, rng.choice([0, 2, 4]), 0], [3, rng.choice([0, 2, 8]), 0]])
     maybe_equalise(rng, asg)
-    ignore = rng.random() < 0.06
+    ignore = rng.random() < 0.06 or ignore_input
     out = []
     gid = rng.getrandbits(48)
     for (j, perm) in styles(sig, asg, rng, cap_styles):
@@ -808,6 +821,76 @@ def finish_request(rng, rq, params, strict):
         rq['json_null'], rq['json_body'] = True, {}
 
 
+
+
+# --------------------------------------------------------------------------- names of signature parameters as an input
+CONVENTION_NAMES = [12, 12, 10, 11, 13, 14, 15, 16, 17, 18]      # cls, args, kwargs (no star), result, func, parameters, k, value, signature
+
+
+def gen_convention_names(rng, maxchain, cap_styles=6):
+    """A plain function or a method one of whose parameters is literally NAMED like an implicit / conventional argument (cls, args,
+    kwargs, ... - w_validate.SPECIAL_NAMES; `self` at other places than the implicit first one is the region of the open
+    finding C12-K3 and generated by malform_special) at the first or a later position, mostly WITHOUT a declared Parameter;
+    the other parameters declared with accepting chains; every parameter passed, in every call style x every return_as mode.
+    Nothing binds such a parameter implicitly: under strict it is an argument without declared Parameter like any other."""
+    special = rng.choice(CONVENTION_NAMES)
+    others = rng.sample([1, 2, 3, 4, 5, 6], rng.choice([0, 1, 1, 2]))
+    names = list(others)
+    names.insert(0 if rng.random() < 0.5 else rng.randint(0, len(names)), special)
+    n_def = rng.choice([0, 0, 1, len(names)])
+    sps = [{'n': 0, 'kwonly': False, 'default': None}] if rng.random() < 0.3 else []
+    method = bool(sps)
+    for i, nm in enumerate(names):
+        sps.append({'n': nm, 'kwonly': False, 'default': [1, rng.choice(INT_POOL), 0] if i >= len(names) - n_def else None})
+    sig = {'params': sps, 'varkw': rng.random() < 0.05, 'method': method}
+    strict = rng.random() < 0.75
+    params = [gen_param(rng, n, maxchain, kinds=('plain', 'plain', 'hext'), benign=True) for n in others]
+    if rng.random() < 0.2:
+        params.append(gen_param(rng, special, maxchain, kinds=('plain',), benign=True))
+    rng.shuffle(params)
+    asg = {n: rng.choice([[1, rng.choice([0, 2, 3, 8]), 0], [3, rng.choice([0, 2, 8]), 0], gen_val(rng, no_none=True)]) for n in names}
+    if rng.random() < 0.15:
+        asg.pop(rng.choice(names))
+    out = []
+    gid = rng.getrandbits(48)
+    is_async = rng.random() < 0.2
+    for (j, perm) in styles(sig, asg, rng, cap_styles):
+        args, kwargs = make_call(sig, asg, j, perm)
+        for mode in (0, 1, 2):
+            c = base_case(sig, params, mode, strict, False, is_async, args, kwargs, tag='convention-names')
+            c['group'] = gid
+            out.append(c)
+    return out
+
+
+# --------------------------------------------------------------------------- rejections that already carry a parameter name
+def gen_named_rejection(rng, maxchain):
+    """Two to four declared Parameters; the chain of one of them contains, at a chosen position, a validator whose
+    ValidatorException already carries a parameter_name - the name of ANOTHER Parameter of the function, of a name outside, or
+    its own (a composite validator delegating through Validator.validate_param(value, parameter_name=<field>), or raising
+    ValidatorException(parameter_name=<field>) itself) - and the value hits / just misses the rejection.  The statement: the
+    ParameterException carries the name of the Parameter whose chain rejected."""
+    names = rng.sample([1, 2, 3, 4, 5, 6, 12, 17], rng.choice([2, 2, 3, 4]))
+    sps = [{'n': n, 'kwonly': False, 'default': None} for n in names]
+    sig = {'params': sps, 'varkw': False, 'method': False}
+    if rng.random() < 0.25:
+        sig['params'].insert(0, {'n': 0, 'kwonly': False, 'default': None})
+        sig['method'] = True
+    params = [gen_param(rng, n, maxchain, kinds=('plain', 'plain', 'plain', 'hext'), benign=True) for n in names]
+    rng.shuffle(params)
+    p = rng.choice(params)
+    chain, v = boundary_chain(rng, maxchain)
+    pos = [k for k, d in enumerate(chain) if d[0] == 'max' and d[1] != 50][0]
+    other = rng.choice([n for n in names if n != p['n']] * 3 + [7, 8, p['n']])
+    chain[pos] = ['maxnamed', chain[pos][1], other, rng.randrange(2)]
+    p.update(chain=chain, conv=0, kind='plain', ext=None)
+    asg = {n: [1, rng.choice([0, 2, 3]), 0] for n in names}
+    asg[p['n']] = v
+    j = rng.randint(0, len(names))
+    rest = names[j:]
+    rng.shuffle(rest)
+    args, kwargs = make_call(sig, asg, j, rest)
+    return base_case(sig, params, rng.randrange(3), rng.random() < 0.6, False, rng.random() < 0.2, args, kwargs, tag='named-rejection')
 
 
 # --------------------------------------------------------------------------- several Parameters for one name
@@ -1239,7 +1322,7 @@ def run_checks(pid, tier, seed, replay, gen_cases, props, rule, group_check=Fals
         elif not corr:
             disagreements.append({'case': org, 'impl': i, 'model': m, 'what': what, 'single_case': c})
         if group_check and i and 'error' not in i and m and (m['domain'] == 2 or dup_judged) and 'group' in c \
-                and c.get('tag') in ('matrix', 'duplicate-names'):
+                and c.get('tag') in ('matrix', 'duplicate-names', 'convention-names'):
             groups.setdefault((c['group'], c['mode']), []).append((c, i))
     # C13, independent of the specification: within a group (same configuration and named assignment, same mode)
     # every call style must end the same way, and ARGS / KWARGS_WITH_NONE must agree with each other
